@@ -416,6 +416,12 @@ Definition quiescent (s : st) : Prop :=
 
 Definition off (k : plan) : N := if head_is_read k then 1 else 0.
 
+(* what is known while the connection is being closed *)
+Definition nbk (m : mon) (s : st) : Prop := rsq m s <> RBad /\ phase s = Command /\ eof s = false.
+
+Lemma core_nbk m o s : core m o s -> nbk m s.
+Proof. intros (C1 & C2 & C3 & C4 & C5 & C6 & C7 & C8 & C9). repeat split; assumption. Qed.
+
 Definition QH (m : mon) (k : plan) (s : st) : Prop :=
   core m (off k) s /\ exists b, (buf s = [] \/ b = true) /\ wf (rsq m s) b k.
 
@@ -425,17 +431,17 @@ Definition Qr (m : mon) (k : plan) (f : frame) (s : st) : Prop :=
   | FChangeUserReset => core m 0 s /\ buf s = [] /\ accepting rk (m_rs m) = true /\ (k = [MApp SReset] \/ k = [])
   | FHandlerErr false => core m 0 s /\ ((k = [] /\ buf s = [] /\ accepting rk (m_rs m) = true) \/
                                         (exists c, k = errplan c /\ canfail rk (rsq m s)))
-  | FClose _ => rsq m s <> RBad /\ (k = [MApp SClose] \/ k = [])
+  | FClose _ => nbk m s /\ (k = [MApp SClose] \/ k = [])
   | FRead => k = [] /\ quiescent s /\ accepting rk (m_rs m) = true
   | _ => False
   end.
 
 Definition Qs (m : mon) (w : why) (k : plan) (f : frame) (s : st) : Prop :=
   match w with
-  | WDrain | WSleep | WRow => Qr m k f s
+  | WDrain | WSleep | WRow => f <> FRead /\ Qr m k f s
   | WApp c =>
       match f with
-      | FClose _ => c = SClose /\ k = [] /\ rsq m s <> RBad
+      | FClose _ => c = SClose /\ k = [] /\ nbk m s
       | FChangeUserReset => c = SReset /\ k = [] /\ core m 0 s /\ buf s = [] /\ accepting rk (m_rs m) = true
       | FHandler | FChangeUser =>
           core m 0 s /\
@@ -457,7 +463,7 @@ Definition R (m : mon) (x : exn) (f : frame) (s : st) : Prop :=
   match f with
   | FHandler | FChangeUser => core m 0 s /\ x <> XCancel /\ (x = XAuthFailed \/ canfail rk (rsq m s))
   | FChangeUserReset => core m 0 s /\ x <> XCancel
-  | FClose _ => rsq m s <> RBad
+  | FClose _ => nbk m s
   | _ => False
   end.
 
@@ -487,7 +493,7 @@ Proof.
   - intros [C _]. apply (rsq_nb m s), C.
   - intros [C _]. apply (rsq_nb m s), C.
   - destruct wk; [contradiction|]. intros [C _]. apply (rsq_nb m s), C.
-  - intros [C _]. now apply (rsq_nb m s).
+  - intros [C _]. apply (rsq_nb m s), C.
 Qed.
 
 Lemma R_weak m x f s : R m x f s -> Qweak m s.
@@ -496,7 +502,7 @@ Proof.
   - intros [C _]. apply (rsq_nb m s), C.
   - intros [C _]. apply (rsq_nb m s), C.
   - intros [C _]. apply (rsq_nb m s), C.
-  - intros C. now apply (rsq_nb m s).
+  - intros C. apply (rsq_nb m s), C.
 Qed.
 
 (* ---- arithmetic of sequence numbers ---------------------------------------------------------------------- *)
@@ -586,7 +592,8 @@ Lemma opH m s op k f : f = FHandler \/ f = FChangeUser -> QH m (op :: k) s ->
   end.
 Proof.
   intros Hf [C [b [Hb W]]].
-  assert (QrH : forall m' k' s', QH m' k' s' -> Qr m' k' f s') by (intros; destruct Hf as [-> | ->]; assumption).
+  assert (QrH : forall m' k' s', QH m' k' s' -> f <> FRead /\ Qr m' k' f s') by (intros; destruct Hf as [-> | ->]; (split; [discriminate|assumption])).
+  assert (QrH0 : forall m' k' s', QH m' k' s' -> Qr m' k' f s') by (intros; destruct Hf as [-> | ->]; assumption).
   inversion W as [ | rs0 b0 p z d k0 Hnb Hauth Hw | rs0 b0 k0 Hnr Hw | rs0 b0 c q k0 Hc Hcf Hw | rs0 b0 c k0 Hc Hcf Hnc Hnr Hw | Hrk
                  | rs0 b0 k0 Hnr Hw | rs0 b0 id k0 Hnr Hw | rs0 b0 ic k0 Hnr Hw | rs0 b0 ic k0 Hnr Hw | rs0 b0 id items k0 Hnr Hw
                  | rs0 b0 id c k0 Hnr Hw | rs0 b0 id k0 Hnr Hw | rs0 b0 k0 Hnr Hw | rs0 b0 ic k0 Hnb | rs0 b0 x ic k0 Hx1 Hx2 Hcf
@@ -651,7 +658,7 @@ Proof.
     assert (Hbuf : buf s = []) by (destruct Hb as [Hb|Hb]; [exact Hb|discriminate Hb]).
     split; [exact C|]. split; [exact Hbuf|]. split; [rewrite <- (rsq_empty m s Hbuf); exact Hacc|now left].
   - (* MQuit *)
-    cbn [exec_op]. split; [apply (rsq_nb m s), C|]. intros _. cbn [Qr]. split; [exact Hnb|now left].
+    cbn [exec_op]. split; [apply (rsq_nb m s), C|]. intros _. cbn [Qr]. split; [exact (core_nbk _ _ _ C)|now left].
 Qed.
 
 Lemma op_ok3 m s op k f : Qr m (op :: k) f s ->
@@ -679,7 +686,7 @@ Proof.
     destruct (exec_op B s (MWrite (PErr c) SZ_ERR true)) as [s' o|s' w ic o|s' x ic o|s'|s' f']; try contradiction.
     + destruct WS as [[C' E'] Hd]. specialize (Hd eq_refl). cbn [Qr]. split; [exact C'|]. left. split; [reflexivity|]. split; [exact Hd|].
       rewrite <- (rsq_empty _ _ Hd), E', E. reflexivity.
-    + destruct WS as [-> [[C' E'] Hd]]. cbn [Qs Qr]. split; [exact C'|]. left. split; [reflexivity|]. split; [exact Hd|].
+    + destruct WS as [-> [[C' E'] Hd]]. cbn [Qs Qr]. split; [discriminate|]. split; [exact C'|]. left. split; [reflexivity|]. split; [exact Hd|].
       rewrite <- (rsq_empty _ _ Hd), E', E. reflexivity.
   - destruct H as [Hnb [Hk|Hk]]; [|discriminate Hk]. inversion Hk; subst. cbn [exec_op]. rewrite mrun_sess. cbn [Qs]. auto.
 Qed.
@@ -696,7 +703,7 @@ Proof.
     destruct H as (C & Hx & Hc). assert (K : kill s = None) by apply C. cbn [kill set_exec]. rewrite K.
     assert (QE : forall c, canfail rk (rsq m s) -> Qr m (errplan c) (FHandlerErr false) (set_exec s false)).
     { intros c Hcf. cbn [Qr]. split; [exact C|]. right. exists c. split; [reflexivity|exact Hcf]. }
-    assert (QC : Qr m [MApp SClose] (FClose false) (inc_closes (set_exec s false))) by (cbn [Qr]; split; [apply C|now left]).
+    assert (QC : Qr m [MApp SClose] (FClose false) (inc_closes (set_exec s false))) by (cbn [Qr]; split; [exact (core_nbk _ _ _ C)|now left]).
     destruct x as [|c| | |]; [congruence|destruct Hc as [Hc|Hc]; [discriminate Hc|]; now apply QE|destruct Hc as [Hc|Hc]; [discriminate Hc|]; now apply QE|destruct Hc as [Hc|Hc]; [discriminate Hc|]; now apply QE|exact QC].
   - (* FChangeUser *)
     destruct H as (C & Hx & Hc). assert (K : kill s = None) by apply C. rewrite K.
@@ -704,13 +711,13 @@ Proof.
     { intros [L Hn]. cbn [Qr]. split; [exact C|]. exists true. split; [now right|].
       assert (E : rstep dep rk (rsq m s) (PErr E_UNKNOWN_ERROR) = RDone) by (apply live_err; assumption).
       apply wf_write; [rewrite E; discriminate|reflexivity|]. rewrite E. apply wf_raise_auth. discriminate. }
-    assert (QC : Qr m [MApp SClose] (FClose false) (inc_closes (set_exec s false))) by (cbn [Qr]; split; [apply C|now left]).
+    assert (QC : Qr m [MApp SClose] (FClose false) (inc_closes (set_exec s false))) by (cbn [Qr]; split; [exact (core_nbk _ _ _ C)|now left]).
     destruct x as [|c| | |]; [congruence|destruct Hc as [Hc|Hc]; [discriminate Hc|]; now apply QE|destruct Hc as [Hc|Hc]; [discriminate Hc|]; now apply QE|destruct Hc as [Hc|Hc]; [discriminate Hc|]; now apply QE|exact QC].
   - (* FChangeUserReset *)
     destruct H as (C & Hx). assert (K : kill s = None) by apply C. rewrite K.
-    assert (QC : Qr m [MApp SClose] (FClose false) (inc_closes (set_exec s false))) by (cbn [Qr]; split; [apply C|now left]).
+    assert (QC : Qr m [MApp SClose] (FClose false) (inc_closes (set_exec s false))) by (cbn [Qr]; split; [exact (core_nbk _ _ _ C)|now left]).
     destruct x as [|c| | |]; [congruence|exact QC|exact QC|exact QC|exact QC].
-  - (* FClose *) unfold Qdone. now apply (rsq_nb m s).
+  - (* FClose *) unfold Qdone. apply (rsq_nb m s), H.
 Qed.
 
 Lemma core_quiescent m o s s' : core m o s -> buf s = [] ->
@@ -881,10 +888,10 @@ Proof.
   - (* EvApp *)
     destruct w; try exact ST. destruct c; try exact ST;
     match goal with G1 : Qs _ (WApp ?c1) _ _ _ |- _ => apply (app_event m s c1 k f o); [discriminate|exact Ha|exact G1] end.
-  - (* EvRowReady *) destruct w; try exact ST. apply go_ok. exact G.
-  - (* EvTick *) destruct w; try exact ST. apply go_ok. exact G.
+  - (* EvRowReady *) destruct w; try exact ST. apply go_ok. apply G.
+  - (* EvTick *) destruct w; try exact ST. apply go_ok. apply G.
   - (* EvPause *) now apply stay_paused.
-  - (* EvResume *) destruct w; try (now apply stay_paused). apply go_ok. exact G.
+  - (* EvResume *) destruct w; try (now apply stay_paused). apply go_ok. apply G.
 Qed.
 
 Definition exec_ok := exec_ok3 B BATCH mon mstep Qs Qdone Qweak allowed step_ok.
@@ -917,36 +924,74 @@ Proof.
   - destruct (find_stmt id (stmts s)); reflexivity.
 Qed.
 
+Lemma round_start c s ic : rk = rkind_of c -> cmd_ok c -> quiescent s -> ctl_ s = Susp WRead [] FRead ic -> ok m0 (step B BATCH s (EvPayload c)).
+Proof.
+  intros Hrk Hc Q P.
+  unfold step. rewrite P. destruct Q as (Q1 & Q2 & Q3 & Q4 & Q5 & Q6 & Q7 & Q8). rewrite Q5, Q6. cbn [app].
+  unfold go. destruct (FUEL (set_inq s [c]) []) as [|n] eqn:EF; [unfold FUEL in EF; lia|].
+  cbn [Conn.run end_plan inq set_inq].
+  pose proof (handler_fields (set_exec (set_seq (set_inq (set_inq s [c]) []) ((seq (set_inq s [c]) + 1) mod 256)) true) c) as HF.
+  pose proof (handler_hir (set_exec (set_seq (set_inq (set_inq s [c]) []) ((seq (set_inq s [c]) + 1) mod 256)) true) c) as HH.
+  pose proof (handler_wf dep BATCH (set_exec (set_seq (set_inq (set_inq s [c]) []) ((seq (set_inq s [c]) + 1) mod 256)) true) c Hc Q1) as HW.
+  destruct (handler BATCH (set_exec (set_seq (set_inq (set_inq s [c]) []) ((seq (set_inq s [c]) + 1) mod 256)) true) c) as [s2 k2].
+  cbn [fst snd] in *. cbn [deprecate_eof dead eof kill phase inq seq buf set_exec set_seq set_inq] in HF.
+  destruct HF as (F1 & F2 & F3 & F4 & F5 & F6 & F7 & F8).
+  apply run_ok. cbn [Qr].
+  assert (Hb : buf s2 = []) by congruence.
+  assert (Hs : seq s2 = 1) by (rewrite F7, Q8; reflexivity).
+  split.
+  - unfold core. rewrite (menq_empty m0 s2 Hb), (off0 _ HH). unfold rsq. rewrite (menq_empty m0 s2 Hb). cbn [m_seq m_rs m0].
+    rewrite F1, F2, F3, F4, F5, F6, Hs. repeat split; auto; try lia; discriminate.
+  - exists false. split; [now left|]. rewrite (rsq_empty m0 s2 Hb). cbn [m_rs m0]. rewrite Hrk. exact HW.
+Qed.
+
 Theorem round_ok c evs s : rk = rkind_of c -> cmd_ok c -> quiescent s -> at_prompt s -> Forall allowed evs ->
   ok m0 (exec B BATCH s (EvPayload c :: evs)).
 Proof.
-  intros Hrk Hc Q P Ha.
-  assert (S1 : ok m0 (step B BATCH s (EvPayload c))).
-  { unfold step. rewrite P. destruct Q as (Q1 & Q2 & Q3 & Q4 & Q5 & Q6 & Q7 & Q8). rewrite Q5, Q6. cbn [app].
-    unfold go. destruct (FUEL (set_inq s [c]) []) as [|n] eqn:EF; [unfold FUEL in EF; lia|].
-    cbn [Conn.run end_plan inq set_inq].
-    pose proof (handler_fields (set_exec (set_seq (set_inq (set_inq s [c]) []) ((seq (set_inq s [c]) + 1) mod 256)) true) c) as HF.
-    pose proof (handler_hir (set_exec (set_seq (set_inq (set_inq s [c]) []) ((seq (set_inq s [c]) + 1) mod 256)) true) c) as HH.
-    pose proof (handler_wf dep BATCH (set_exec (set_seq (set_inq (set_inq s [c]) []) ((seq (set_inq s [c]) + 1) mod 256)) true) c Hc Q1) as HW.
-    destruct (handler BATCH (set_exec (set_seq (set_inq (set_inq s [c]) []) ((seq (set_inq s [c]) + 1) mod 256)) true) c) as [s2 k2].
-    cbn [fst snd] in *. cbn [deprecate_eof dead eof kill phase inq seq buf set_exec set_seq set_inq] in HF.
-    destruct HF as (F1 & F2 & F3 & F4 & F5 & F6 & F7 & F8).
-    apply run_ok. cbn [Qr].
-    assert (Hb : buf s2 = []) by congruence.
-    assert (Hs : seq s2 = 1) by (rewrite F7, Q8; reflexivity).
-    split.
-    - unfold core. rewrite (menq_empty m0 s2 Hb), (off0 _ HH). unfold rsq. rewrite (menq_empty m0 s2 Hb). cbn [m_seq m_rs m0].
-      rewrite F1, F2, F3, F4, F5, F6, Hs. repeat split; auto; try lia; discriminate.
-    - exists false. split; [now left|]. rewrite (rsq_empty m0 s2 Hb). cbn [m_rs m0]. rewrite Hrk. exact HW. }
+  intros Hrk Hc Q P Ha. pose proof (round_start c s None Hrk Hc Q P) as S1.
   cbn [exec]. destruct (step B BATCH s (EvPayload c)) as [s1 o1]. unfold ok3 in S1. cbn [fst snd] in S1.
   pose proof (exec_ok evs _ s1 Ha S1) as S2. destruct (exec B BATCH s1 evs) as [s2 o2]. unfold ok3 in *. cbn [fst snd] in *.
   now rewrite mrun_app.
 Qed.
 
+(* every suspended state of a lock-step conversation: command phase, the client's side open, FRead only as the prompt *)
+Lemma Qr_ik m k f s : Qr m k f s -> phase s = Command /\ eof s = false.
+Proof.
+  destruct f as [| | | | | |wk| |re]; cbn [Qr]; try contradiction.
+  - intros (_ & Q & _). split; apply Q.
+  - intros [C _]. split; apply C.
+  - intros [C _]. split; apply C.
+  - intros [C _]. split; apply C.
+  - destruct wk; [contradiction|]. intros [C _]. split; apply C.
+  - intros [C _]. split; apply C.
+Qed.
+
+Lemma good_shape m s : good m s ->
+  match ctl_ s with
+  | Susp w k f _ => (phase s = Command /\ eof s = false) /\ (f = FRead -> w = WRead /\ k = [])
+  | _ => True
+  end.
+Proof.
+  unfold good3. destruct (ctl_ s) as [w k f ic| |]; auto. intros G.
+  destruct w; cbn [Qs] in G.
+  - destruct f as [| | | | | |wk| |re]; try contradiction.
+    + destruct G as (-> & Q & _). split; [split; apply Q|auto].
+    + destruct G as (_ & C & _). split; [split; apply C|discriminate].
+    + destruct G as (_ & C & _). split; [split; apply C|discriminate].
+  - destruct f as [| | | | | |wk| |re]; try contradiction.
+    + destruct G as [C _]. split; [split; apply C|discriminate].
+    + destruct G as [C _]. split; [split; apply C|discriminate].
+    + destruct G as (_ & _ & C & _). split; [split; apply C|discriminate].
+    + destruct G as (_ & _ & C). split; [split; apply C|discriminate].
+  - destruct G as [Hn G]. split; [exact (Qr_ik _ _ _ _ G)|]. intros E. congruence.
+  - destruct G as [Hn G]. split; [exact (Qr_ik _ _ _ _ G)|]. intros E. congruence.
+  - destruct G as [Hn G]. split; [exact (Qr_ik _ _ _ _ G)|]. intros E. congruence.
+Qed.
+
 (* what the verdict means *)
 Lemma Qs_nb m w k f s : Qs m w k f s -> m_rs m <> RBad.
 Proof.
-  destruct w; cbn [Qs]; try apply Qr_weak.
+  destruct w; cbn [Qs]; try (intros [_ H]; revert H; apply Qr_weak).
   - destruct f as [| | | | | |wk| |re]; try contradiction.
     + intros (_ & _ & A). now apply acc_nb.
     + intros (_ & _ & _ & -> & _). discriminate.
@@ -955,7 +1000,7 @@ Proof.
     + intros [C _]. apply (rsq_nb m s), C.
     + intros [C _]. apply (rsq_nb m s), C.
     + intros (_ & _ & C & _). apply (rsq_nb m s), C.
-    + intros (_ & _ & H). now apply (rsq_nb m s).
+    + intros (_ & _ & H). apply (rsq_nb m s), H.
 Qed.
 
 Lemma good_nb m s : good m s -> m_rs m <> RBad.
